@@ -4,7 +4,9 @@ Local Open Scope list_scope.
 Local Open Scope Z_scope.
 
 (* one status entry as served by GET /api/v1/shard/targets/status/ *)
-Record sobs := { sb_hash : N; sb_state : tstate; sb_health : health; sb_series : Z; sb_total : Z; sb_times : N; sb_err : bool }.
+Record sobs := { sb_hash : N; sb_state : tstate; sb_health : health; sb_series : Z; sb_total : Z; sb_times : N; sb_err : bool;
+                 sb_errkind : N (* what LastError says: 0 nothing, 1 the stop-scrape reason, 2 connection failed, 3 HTTP status, 4 body broke off, 5 else;
+                                   read by the C13 monitor only, the model does not carry it *) }.
 (* one job as served by GET /api/v1/shard/samples/?with_metrics_detail=true: the samples kept after metric relabeling, and per
    metric (the harness' payloads have two: `keepme`, `dropme`) the (kept, all) counts *)
 Record samp := { sm_job : N; sm_scraped : Z; sm_keep : Z * Z; sm_drop : Z * Z }.
@@ -12,7 +14,8 @@ Record sc_obs := { so_status : list sobs (* sorted by hash *); so_head : Z; so_p
                    so_samples : list samp (* sorted by job *); so_samples_stable : bool (* a second GET answered the same *);
                    so_injected : list (N * list N) (* what the injector wrote for the shard's Prometheus: per job (ascending) the hashes
                                                       (ascending) of its static targets; jobs without targets left out *) }.
-Record sc_case := { sk_prom : Z; sk_now0 : Z; sk_ops : list sc_op; sk_seen : list sc_obs (* after start-up, then after each op *) }.
+Record sc_case := { sk_prom : Z; sk_now0 : Z; sk_ops : list sc_op; sk_seen : list sc_obs (* after start-up, then after each op *);
+                    sk_kinds : list N (* per op: how the scripted target failed (2 connection, 3 status, 4 body), 0 otherwise *) }.
 
 Fixpoint insert_sobs (t : sobs) (l : list sobs) : list sobs :=
   match l with
@@ -22,7 +25,7 @@ Fixpoint insert_sobs (t : sobs) (l : list sobs) : list sobs :=
 Definition obs_status (st : amap sstat) : list sobs :=
   fold_right insert_sobs [] (map (fun kv => {| sb_hash := fst kv; sb_state := ss_state (snd kv); sb_health := ss_health (snd kv);
                                                sb_series := ss_series (snd kv); sb_total := ss_total (snd kv);
-                                               sb_times := ss_times (snd kv); sb_err := ss_err (snd kv) |}) st).
+                                               sb_times := ss_times (snd kv); sb_err := ss_err (snd kv); sb_errkind := 0 |}) st).
 (* service.go samples: per job of the assignment, sums over its targets' last-scrape statistics *)
 Definition samples_of_job (st : amap sstat) (j : N) (ts : list tgt) : samp :=
   let lasts := flat_map (fun t => match afind (t_hash t) st with
@@ -269,5 +272,26 @@ Fixpoint c13_counter_walk (prev : sc_obs) (ops : list sc_op) (seen : list sc_obs
     end && c13_counter_walk cur ops' seen'
   | _ :: _, [] => false
   end.
+(* "health down with the error": after a scrape the status names the failure of THAT scrape (or nothing after a success);
+   every other entry keeps what it said; a new entry and an entry after a restart say nothing *)
+Fixpoint c13_error_walk (prev : sc_obs) (ops : list sc_op) (kinds : list N) (seen : list sc_obs) : bool :=
+  match ops, kinds, seen with
+  | [], _, _ => true
+  | op :: ops', k :: kinds', cur :: seen' =>
+    forallb (fun c =>
+      let before := match find_sobs (sb_hash c) (so_status prev) with Some p => sb_errkind p | None => 0%N end in
+      match op with
+      | OpScrape h r stopped =>
+        if N.eqb (sb_hash c) h
+        then N.eqb (sb_errkind c) (match r with ScrOk _ _ => if stopped then 1%N else 0%N | ScrFail => k end)
+        else N.eqb (sb_errkind c) before
+      | OpUpdate _ _ _ => N.eqb (sb_errkind c) before
+      | OpRestart _ => N.eqb (sb_errkind c) 0
+      end) (so_status cur) && c13_error_walk cur ops' kinds' seen'
+  | _, _, _ => false
+  end.
 Definition c13_counter_case (c : sc_case) : bool :=
-  match sk_seen c with first :: rest => c13_counter_walk first (sk_ops c) rest | [] => false end.
+  match sk_seen c with
+  | first :: rest => c13_counter_walk first (sk_ops c) rest && c13_error_walk first (sk_ops c) (sk_kinds c) rest
+  | [] => false
+  end.
